@@ -21,7 +21,36 @@ static bool edn_has_duplicates_linear(edn_value_t** elements, size_t count) {
     return false;
 }
 
+/**
+ * Sorting finds duplicates only if edn_value_compare() returns 0 exactly for equal
+ * values. That holds for these scalar kinds; collections, tagged and external values are
+ * ordered by address, and big numbers / ratios are compared differently than
+ * edn_value_equal() compares them.
+ */
+static bool edn_sort_comparable(edn_value_t** elements, size_t count) {
+    for (size_t i = 0; i < count; i++) {
+        switch (elements[i]->type) {
+            case EDN_TYPE_NIL:
+            case EDN_TYPE_BOOL:
+            case EDN_TYPE_INT:
+            case EDN_TYPE_FLOAT:
+            case EDN_TYPE_CHARACTER:
+            case EDN_TYPE_STRING:
+            case EDN_TYPE_SYMBOL:
+            case EDN_TYPE_KEYWORD:
+                break;
+            default:
+                return false;
+        }
+    }
+    return true;
+}
+
 static bool edn_has_duplicates_sorted(edn_value_t** elements, size_t count) {
+    if (!edn_sort_comparable(elements, count)) {
+        return edn_has_duplicates_linear(elements, count);
+    }
+
     edn_value_t** temp = malloc(count * sizeof(edn_value_t*));
     if (temp == NULL) {
         return edn_has_duplicates_linear(elements, count);
@@ -116,7 +145,7 @@ bool edn_has_duplicates(edn_value_t** elements, size_t count) {
 
     if (count <= LINEAR_THRESHOLD) {
         return edn_has_duplicates_linear(elements, count);
-    } else if (count <= SORTED_THRESHOLD) {
+    } else if (count <= SORTED_THRESHOLD && edn_sort_comparable(elements, count)) {
         return edn_has_duplicates_sorted(elements, count);
     } else {
         return edn_has_duplicates_hash(elements, count);
